@@ -296,10 +296,18 @@ def run_schedule(case, steps, role, counters):
                 if ev in LOCAL:
                     viol.append({"key": "invalid-event|local-primitive|%s" % pr["pair"], "detail": "%r trace=%r" % (pr, trace)})
                 elif pr["pair"] == "Evt18@Sta3":
-                    # mechanism discriminator: was the A-ASSOCIATE-RQ already read (queued) before Evt5 started ARTIM?
-                    s_evt5 = next((f["seq"] for f in taps.State.fsm if f["assoc"] == id(target) and f["event"] == "Evt5"), 0)
+                    # mechanism discriminators: (a) was the A-ASSOCIATE-RQ already read (queued) before Evt5 started ARTIM?
+                    # (b) otherwise: had ARTIM (0.3 s) already expired when the iteration that read the RQ began (then a
+                    # correct reactor queues Evt18 FIRST), or did it expire while that iteration was running (sub-ms race)?
+                    f5 = next((f for f in taps.State.fsm if f["assoc"] == id(target) and f["event"] == "Evt5"), None)
+                    f6 = next((f for f in taps.State.fsm if f["assoc"] == id(target) and f["event"] == "Evt6"), None)
                     s_rq = next((sq for (sq, aid, e) in taps.State.dul_events if aid == id(target) and e == "Evt6"), 10 ** 9)
-                    how = "rq-read-before-artim-start" if s_rq < s_evt5 else "rq-read-after-artim-start"
+                    if f5 is None or s_rq < f5["seq"]:
+                        how = "rq-read-before-artim-start"
+                    elif f6 is not None and f6["t"] - f5["t"] > 0.3 + 0.05:
+                        how = "artim-already-expired-when-the-reading-iteration-began"
+                    else:
+                        how = "artim-expired-during-the-reading-iteration"
                     viol.append({"key": "invalid-event|Evt18@Sta3|%s" % how, "detail": "%r trace=%r" % (pr, trace)})
                 else:
                     viol.append({"key": "invalid-event|%s" % pr["pair"], "detail": "%r trace=%r" % (pr, trace)})
